@@ -234,8 +234,14 @@ func VH_slice_EditScriptBig() {
 // LCS computation is abandoned half way because the caller's equality function
 // panics (the caller recovers); a later EditScript must be unaffected.
 func VH_slice_EditAfterPanic() {
-	a, b := vMkInts(vCase("na")), vMkInts(vCase("na"))
-	calls, stop := 0, vChoice("panic-at", vCase("na")*vCase("na"))+1
+	// (the abandoned computation runs on concrete inputs with a few matches: what
+	// matters is where it is interrupted, not what it compared)
+	na := vCase("na")
+	a, b := make([]int, na), make([]int, na)
+	for i := range a {
+		a[i], b[i] = i, (i+1)%na
+	}
+	calls, stop := 0, vChoice("panic-at", na*na)+1
 	panicked, _ := vPanics(func() {
 		LCSFunc(a, b, func(x, y int) bool {
 			calls++
